@@ -56,12 +56,13 @@ def sweep_cases(ctx):
     reps = 1 if ctx.quick else 6
     for _ in range(reps):
         for f in fracs:
-            for kind in ('sleep', 'raise', 'owntimeout', 'native', 'swallow', 'retnone', 'retzero', 'retempty'):
+            for kind in ('sleep', 'raise', 'owntimeout', 'ownmemerr', 'native', 'swallow', 'retnone', 'retzero', 'retempty'):
                 if ctx.quick and rng.random() < 0.45:
                     continue
                 cases.append({'kind': kind, 'limit': limit, 'dur': round(limit*f, 4), 'inner_limit': 0})
     # nested calls: outer limit, inner limit, function duration
-    for outer, inner, dur in ((0.1, 0.2, 0.5), (0.3, 0.1, 0.5), (0.3, 0.2, 0.05)):
+    # (the fourth: a generous outer limit around an inner call that must expire on its own, shorter limit)
+    for outer, inner, dur in ((0.1, 0.2, 0.5), (0.3, 0.1, 0.5), (0.3, 0.2, 0.05), (3.0, 0.1, 0.6)):
         cases.append({'kind': 'nested', 'limit': outer, 'dur': dur, 'inner_limit': inner})
     for i, c in enumerate(cases):
         c.update(rkind='sweep', limit_ms=int(c['limit']*1000), dur_ms=int(c['dur']*1000), inner_ms=int(c['inner_limit']*1000))
